@@ -24,6 +24,7 @@ RULE = ("runs of C01-C03 style programs (backgrounds at feature and rule level, 
         "show_multiline / show_timings / colour, --stop, dry-run; (1) an automaton checks every recorded event stream, "
         "(2) the JSON output is parsed and compared with the model after the run and read back with JsonParser, "
         "(3) plain / progress2 / progress3 text is parsed and compared with the processed steps. A case = one run; "
+        "A process sample runs `-f json -o FILE -f pretty` from a pty whose window size reports zeros in either dimension. "
         "non-trivial = >=2 shown scenarios and >=3 formatters; distinct by hash of (program, args, formatter list)."
         % BUILTINS)
 ASSUMPTIONS = [
